@@ -495,6 +495,9 @@ Definition find_psm (m : msgd) : res (option (str * N)) :=
       else RErr "unknown PSM type suffix"
   end.
 
+Definition is_enum_entry (e : entry) : bool :=
+  match e with Linked (REnum _ _ _ _ _) => true | _ => false end.
+
 (* ---------------------------------------------------------------- one level of the recursion *)
 Section Step.
 (* the recursive call: build the root schema of a message (buildOneofSchema / buildObjectSchema) *)
@@ -516,7 +519,10 @@ Definition build_message_field (st : sset) (f : field) (x : exts) : outcome (sse
                    let k := msg_key m in
                    let wrapper := is_oneof_wrapper m in
                    obind (match lookup st k with
-                          | Some _ => Ok st
+                          (* the mirror guard (d286176): an existing ref linked to an enum schema; a nil To
+                             (a message under construction) and a linked object / oneof pass *)
+                          | Some e => if is_enum_entry e then Err "schema name is used by an enum and by a message or oneof"
+                                      else Ok st
                           | None => obind (rec ((k, Placeholder) :: st) m) (fun '(st1, r) => Ok (update st1 k (Linked r)))
                           end) (fun st2 =>
                    Ok (st2, if wrapper then FOneof k None (match x_lty x with LOneof t => Some t | _ => None end) None
